@@ -54,6 +54,9 @@ class EscapeOfHEProducts(ExactSolver):
 
         # check for illegal input values
 
+        if self.gamma != 3.0:
+            raise ValueError('gamma must be 3.0')
+
         if self.D <= 0:
             raise ValueError('Detonation velocity must be > 0')
 
